@@ -258,7 +258,9 @@ def check_crash_state(ctx, case, snap, run_desc, where):
 
 
 def failed_unlinks(events):
-    return {e[2] for e in events if e[1] == 'unlink' and e[4] not in ('ok', 'enoent')}
+    """Temp files whose removal was attempted and raised (the excluded class of C12_fail: nothing can be
+    done when the unlink itself fails; an injected ENOENT on a file that exists counts as such a failure)."""
+    return {e[2] for e in events if e[1] == 'unlink' and e[4] != 'ok'}
 
 
 def check_final(ctx, case, res, run_desc, faulted):
